@@ -100,8 +100,10 @@ pub fn cmd_record(args: &[String]) -> i32 {
 
 /// xv drive-one <source>: the observables of one source under every drive mode (developer / replay helper)
 pub fn cmd_one(args: &[String]) -> i32 {
+    // xv drive-one <source> [<prior source> [eval|run]]
+    let prior: Option<(String, bool)> = args.get(1).map(|p| (p.clone(), args.get(2).map(|s| s != "run").unwrap_or(true)));
     for (drive, rec, name) in MODES.iter() {
-        let r = run_source(&args[0], *drive, *rec, 20_000);
+        let r = match &prior { Some(p) => run_source_after(p, &args[0], *drive, *rec, 20_000), None => run_source(&args[0], *drive, *rec, 20_000) };
         println!("{:<18} {}", name, if r.panic.is_some() { json!({"panic": r.panic}) } else { observables(&r) });
     }
     0
